@@ -369,7 +369,7 @@ def _canary(x, prop='H'):
         w.canary(f'canary: {prop} is off by one', w.eq(val, getattr(fresh_of(s), prop) + 1.))
 
 
-def _early_canary(x, prop='H'):
+def _early_canary(x, prop='H', force=False):
     """
     Multi-phase streams: refuting a wrong clause is a model search over the whole path condition, which is
     nonlinear (n_i / sum n) and timed out now and then at the end of long paths on a loaded machine.  The wrong
@@ -377,7 +377,7 @@ def _early_canary(x, prop='H'):
     sides of the switch; natively the switch is 0 and the history runs).
     """
     w = x.w
-    if not isinstance(x.s, tmo.MultiStream): return
+    if not (force or isinstance(x.s, tmo.MultiStream)): return
     x.early = True
     if w.real('canary.switch') > 0.:
         val = getattr(x.s, prop)
@@ -402,17 +402,20 @@ MOVES = {          # how the state s1 differs from the primed state s0
 
 def getprop_configs(tier):
     out = []
-    kinds = ['l', 'gl'] if tier == 'quick' else ['l', 'gl', 'lL', 'gls']
+    kinds = ['l', 'gl'] if tier == 'quick' else ['l', 'g', 'gl', 'lL', 'gls']
     primes = [(), ('H',), ('sigma',), ('V', 'mu')] if tier == 'quick' else \
         [(), ('H',), ('S',), ('Cn',), ('sigma',), ('Hvap',), ('V', 'mu'), ('H', 'sigma'), ('sigma', 'H'), ('kappa', 'epsilon', 'C')]
     for kind in kinds:
         multi = len(kind) > 1
         moves = ['same', 'T', 'P', 'comp', 'total', 'comp0', 'all', 'empty'] + (['toSingle', 'phases'] if multi else ['phase', 'toMulti'])
+        small = kind in ('lL', 'gls')        # three phases / two liquids: reduced family (the VCs get large)
         for prime in primes:
+            if small and prime not in ((), ('H',), ('sigma',)): continue
             for mv in moves:
+                if small and mv not in ('same', 'T', 'comp', 'toSingle', 'phases'): continue
                 if not prime and mv != 'same': continue
                 if 'S' in prime and mv in ('total', 'all', 'comp'): continue    # see note on entropy below
-                if (tier == 'thorough' or mv in ('same', 'all', 'T', 'comp')) and len(prime) <= 1:
+                if (tier == 'thorough' or mv in ('same', 'all', 'T', 'comp')) and len(prime) <= 1 and not small:
                     firsts = PRIMARY
                 else:
                     firsts = ('H', 'sigma', 'V')
@@ -430,7 +433,7 @@ def getprop_configs(tier):
     # the quantities derived from the memoised ones (stateless functions of them and of MW): fewer structures
     for kind in (['l'] if tier == 'quick' else ['l', 'g', 'gl']):
         for prime in [(), ('V',), ('Cn', 'mu', 'kappa')]:
-            for mv in (['same', 'T'] if tier == 'quick' else ['same', 'T', 'comp', 'total', 'phase' if len(kind) == 1 else 'toSingle']):
+            for mv in (['same', 'T'] if tier == 'quick' else ['same', 'T', 'P', 'phase' if len(kind) == 1 else 'toSingle']):
                 if not prime and mv != 'same': continue
                 for first in DERIVED:
                     out.append({'name': f'kind={kind};prime={"+".join(prime) or "none"};move={mv};read={first}',
@@ -446,7 +449,7 @@ def getprop_configs(tier):
        assumptions=['A-models'])
 def get_property(w, cfg):
     x = X(w, cfg['kind'], n_present=cfg.get('present', 'pos+pos'))
-    _early_canary(x)
+    _early_canary(x, force=cfg['derived'])       # derived quantities divide by V, MW, ...: same reason
     for p in cfg['prime']:
         read(x, x.s, p, f'prime {p}')
     run_history(x, MOVES[cfg['move']])
